@@ -185,6 +185,31 @@ class _no_external_tools:  # pylint: disable=invalid-name
         return False
 
 
+def _other_content(spec: dict, index: int) -> dict:
+    """ the spec of 'another record with the same id': the gene at `index` (modulo) carries another name, everything
+        else is the same - for a module, a record that lacks one of the genes its saved results may refer to """
+    import copy
+    other = copy.deepcopy(spec)
+    gene = other["genes"][index % len(other["genes"])]
+    gene["name"] = gene["name"] + "_other"
+    return other
+
+
+def _regenerate_again(regenerate, data, first_text: str, save, where: dict, classes: set) -> None:
+    """ The parsed JSON `data` was already used for one regeneration; a second regeneration from that very object (a
+        retry, a second consumer: tfbs_finder.regenerate_previous_results itself calls from_json twice) may refuse,
+        but it must never give results that save differently from the first ones. Several shipped from_json methods
+        consume their argument (`data.pop(...)`) and then refuse the second time; that is recorded as a class. """
+    outcome = regenerate(data)
+    if _refused(outcome):
+        classes.add("second_regeneration_refused")
+        return
+    classes.add("second_regeneration_same")
+    text = save(outcome[1])
+    if text != first_text:
+        raise Violation("second_regeneration_differs", dict(where, difference=_text_diff(text, first_text)))
+
+
 def _refused(outcome: tuple) -> bool:
     return outcome[0] == "exc" or (outcome[0] == "ok" and outcome[1] is None)
 
@@ -360,6 +385,7 @@ def _check_rules(spec: dict) -> dict:
     current = {"pre": views[("pre", "hmm")], "post": views[("post", "hmm")]}
     classes = set()
     changed = False
+    repeated = False
     for number, step in enumerate(spec["steps"]):
         level = step["level"]
         view_level = "rule" if level == "rule" else "hmm"
@@ -395,13 +421,24 @@ def _check_rules(spec: dict) -> dict:
             elif kind == "multipliers":
                 strict = base_opt["taxon"] == "fungi"
                 opt["mult"] = change["value"]
-            else:
+            elif kind != "other_content":
                 raise AssertionError(kind)
+        other = bool(change) and change["kind"] == "other_content"
         options = _rules_options(opt)
-        fresh = _rules_record(spec, record_id)
+        fresh = _rules_record(_other_content(spec, change["value"]) if other else spec, record_id)
         where = {"step": number, "level": level, "from": step["src"], "change": change}
         outcome = _rules_regenerate(level, data, fresh, options)
         classes.add(f"level_{level}")
+        if other:
+            # same id, other content (a gene of the saved results may be missing): refusal, or results that save
+            # exactly what was loaded - never a silent subset
+            if _refused(outcome):
+                classes.add("refused")
+                continue
+            _compare_text("other_record_partly_reused", _rules_view(outcome[1], view_level),
+                          views[("pre", view_level)], where)
+            classes.add("other_content_not_consulted")
+            continue
         if change:
             if _refused(outcome):
                 classes.add("refused")
@@ -417,6 +454,10 @@ def _check_rules(spec: dict) -> dict:
         if not isinstance(again, hmm_detection.HMMDetectionResults):
             raise Violation("regenerate_type", dict(where, returned=type(again).__name__))
         pre_text = _dumps(again.to_json())
+        if not change and not repeated:
+            repeated = True
+            _regenerate_again(lambda used: _rules_regenerate(level, used, _rules_record(spec, record_id), options),
+                              data, pre_text, lambda results: _dumps(results.to_json()), where, classes)
         _compare_text("json_identity", _rules_view(again, view_level), views[("pre", view_level)],
                       dict(where, stage="pre"), deferred, _sorted_definitions, "json_definition_order")
         applied = _rules_apply(again, fresh)
@@ -536,6 +577,7 @@ def rules_specs(draw) -> dict:
         {"kind": "schema_hmm", "values": [1, 3, 0, "2", "missing", None], "levels": ("hmm", "module", "main")},
         {"kind": "record_id", "values": ["rec2", "rec1 ", "REC1"], "levels": ("hmm", "module", "main")},
         {"kind": "strictness", "values": other_strictness, "levels": ("module", "main")},
+        {"kind": "other_content", "values": list(range(len(genes))), "levels": HMM_LEVELS},
     ]
     names_now = {name for name, _ in pool}
     alternatives = []
@@ -562,7 +604,7 @@ def rules_specs(draw) -> dict:
 # =========================================================================== generic history driver
 
 def _run_history(spec: dict, *, original_texts: dict, snapshot0: tuple, applied0: tuple, build_record,
-                 regenerate, apply, save, mutate, classes: set, extra_compare=None) -> bool:
+                 regenerate, apply, save, mutate, classes: set, extra_compare=None, build_other=None) -> bool:
     """ The save -> (change) -> regenerate -> apply loop shared by the simple result classes.
 
         original_texts: {"pre": text, "post": text} of the original results
@@ -572,19 +614,30 @@ def _run_history(spec: dict, *, original_texts: dict, snapshot0: tuple, applied0
     """
     current = dict(original_texts)
     changed = False
+    repeated = False
     for number, step in enumerate(spec["steps"]):
         data = _loads(current[step["src"]])
         change = step.get("change")
         env = {"rid": spec["rid"]}
         strict = False
+        other = bool(change) and change["kind"] == "other_content"
         if change:
             changed = True
             classes.add(f"change_{change['kind']}")
-            strict = mutate(change, data, env)
-        fresh = build_record(env["rid"])
+            if not other:
+                strict = mutate(change, data, env)
+        fresh = build_other(env["rid"], change["value"]) if other else build_record(env["rid"])
         where = {"step": number, "level": step["level"], "from": step["src"], "change": change}
         outcome = regenerate(step["level"], data, fresh, env)
         classes.add(f"level_{step['level']}")
+        if other:
+            # same id, other content: refusal, or results that save exactly what was loaded - never a silent subset
+            if _refused(outcome):
+                classes.add("refused")
+                continue
+            _compare_text("other_record_partly_reused", save(outcome[1]), original_texts["pre"], where)
+            classes.add("other_content_not_consulted")
+            continue
         if change:
             if _refused(outcome):
                 classes.add("refused")
@@ -599,6 +652,11 @@ def _run_history(spec: dict, *, original_texts: dict, snapshot0: tuple, applied0
         again = outcome[1]
         pre_text = save(again)
         _compare_text("json_identity", pre_text, original_texts["pre"], dict(where, stage="pre"))
+        if not change and not repeated:
+            repeated = True
+            level, rid = step["level"], env["rid"]
+            _regenerate_again(lambda used: regenerate(level, used, build_record(rid), env), data, pre_text, save,
+                              where, classes)
         if extra_compare is not None:
             extra_compare(again, where)
         applied = apply(again, fresh)[:2]
@@ -1008,7 +1066,8 @@ def _check_nrps(spec: dict) -> dict:
                            build_record=lambda rid: _nrps_record(spec, rid), regenerate=regenerate, apply=apply,
                            save=lambda results: _dumps(results.to_json()),
                            mutate=_schema_and_id_mutator("schema_version", "record_id"), classes=classes,
-                           extra_compare=extra)
+                           extra_compare=extra,
+                           build_other=lambda rid, index: _nrps_record(_other_content(spec, index), rid))
     modules = [module for result in original.cds_results.values() for module in result.modules]
     big = any(len(module.components) >= 3 for module in modules)
     multi_gene = any(len({comp.locus for comp in module.components}) > 1 for module in modules)
@@ -1111,7 +1170,8 @@ def nrps_specs(draw) -> dict:
     if len(genes) >= 2 and draw(st.integers(0, 3)) == 0:
         region_cut = draw(st.integers(1, len(genes) - 1))
     changes = [{"kind": "schema", "values": [3, 5, 0, "4", "missing", None]},
-               {"kind": "record_id", "values": ["rec2", "rec1 ", "REC1"]}]
+               {"kind": "record_id", "values": ["rec2", "rec1 ", "REC1"]},
+               {"kind": "other_content", "values": list(range(len(genes)))}]
     steps = draw(simple_history(NRPS_LEVELS, changes))
     return {"genes": genes, "rid": "rec1", "region_cut": region_cut, "steps": steps}
 
@@ -1435,11 +1495,20 @@ def check_hmmresult(spec: dict) -> dict:
     current = text0
     for cycle in range(spec["cycles"]):
         where = {"cycle": cycle}
-        outcome = _guard(lambda: HMMResult.from_json(_loads(current)))
+        parsed = _loads(current)
+        outcome = _guard(lambda: HMMResult.from_json(parsed))
         if outcome[0] != "ok" or outcome[1] is None:
             raise Violation("regenerate_failed", dict(where, outcome=outcome[1:] if outcome[0] == "exc" else None))
         again = outcome[1]
         _compare_text("json_identity", _dumps(again.to_json()), text0, where)
+        # the same parsed object once more (CDSResult.from_json and Component.from_json are handed parts of one
+        # parsed document; nothing says a hit may be read only once)
+        second = _guard(lambda: HMMResult.from_json(parsed))
+        if second[0] != "ok" or second[1] is None:
+            raise Violation("second_regeneration_failed", dict(where, outcome=second[1:] if second[0] == "exc" else None))
+        if _dumps(second[1].to_json()) != text0:
+            raise Violation("second_regeneration_differs",
+                            dict(where, difference=_text_diff(_dumps(second[1].to_json()), text0)))
         if _tree_describe(again) != described0:
             raise Violation("content", dict(where, difference=_first_diff(_tree_describe(again), described0)))
         if again != original or original != again or hash(again) != hash(original):
